@@ -71,8 +71,8 @@ fn metadata_model(header: u8) {
     let mut bytes: [u8; 8] = kani::any();
     bytes[0] = header;
     bytes[1] = 2;
-    let n: usize = kani::any();
-    kani::assume(n >= 5 && n <= 8);
+    // concrete input length (a symbolic length 5..=8 costs 400 s per instance): 5 header/offset bytes + 2 value bytes
+    let n: usize = 7;
     let r = VariantMetadata::try_new(&bytes[..n]);
     if let Ok(m) = &r {
         assert!(m.len() == 2);
@@ -83,15 +83,15 @@ fn metadata_model(header: u8) {
         std::mem::forget(e);
         assert!(ok, "an accepted dictionary has every entry readable (the infallible accessors unwrap get(i))");
     }
-    kani::cover!(r.is_ok() && bytes[3] == 1 && bytes[4] == 3 && bytes[5] < 0x80 && bytes[6] >= 0xC2, "a one-byte and a two-byte entry accepted");
-    kani::cover!(r.is_err() && n == 8);
+    kani::cover!(r.is_ok() && bytes[3] == 1 && bytes[4] == 2 && bytes[5] < bytes[6], "two one-byte entries accepted");
+    kani::cover!(r.is_err() && bytes[2] == 0 && bytes[4] == 2, "first and last offset plausible, still rejected");
     std::mem::forget(r);
 }
 
 //@ tier: quick
 //@ timeout: 900
 //@ functions: parquet_variant::VariantMetadata::{try_new, try_new_with_shallow_validation, with_full_validation, get, get_offset}, decoder::{OffsetSizeBytes::unpack_u32, map_bytes_to_offsets}, utils::string_from_slice
-//@ bound: UNSORTED metadata (header 0x01: version 1, one-byte offsets) declaring 2 dictionary entries, every input length 5..=8, arbitrary offsets and up to 3 arbitrary value bytes: if try_new accepts, get(i) succeeds for both entries (so Index / iter / get_entry cannot panic); unwind 6
+//@ bound: UNSORTED metadata (header 0x01: version 1, one-byte offsets) declaring 2 dictionary entries, input of 7 bytes (three arbitrary one-byte offsets, 2 arbitrary value bytes): if try_new accepts, get(i) succeeds for both entries (so Index / iter / get_entry cannot panic); unwind 6
 //@ stub: alloc::fmt::format -> empty String; core::str::from_utf8 -> byte-wise RFC 3629 model for <= 3 bytes (crate built without the simdutf8 feature)
 #[kani::proof]
 #[kani::unwind(6)]
